@@ -1,4 +1,5 @@
 import PbBss.Proofs.OracleReal
+import PbBss.Proofs.OracleMultiply
 /-! # C15 — oracle alignment is optimal and undoes any per-frequency permutation
 
 Models: `Model/Optimal.lean` (`'optimal'` brute force in `itertools.permutations` order), `Model/Greedy.lean`,
@@ -89,7 +90,14 @@ theorem oracle_inverts_cos (tiny : ℝ) (ht : 0 < tiny) (algo : Algo) (ref : Tab
   oracle_inverts_of_dominant tiny .cos algo ref π
     (fun f k k' hk => cos_dominant tiny ht _ _ (hn f k) (hn f k') (fun h => hk ((hd f) h)))
 
-/-- multiply metric with the optimal algorithm, rows pairwise distinct (multiply + greedy: search only) -/
+/-- multiply metric with the greedy algorithm: `multiply` is not row dominant, but in every remaining block the
+largest entry is a squared norm on the graph of the inverse permutation (stepwise dominance) -/
+theorem oracle_inverts_multiply_greedy (tiny : ℝ) (ref : Tab3 K F T ℝ) (π : Fin F → Equiv.Perm (Fin K))
+    (hd : ∀ f, Injective fun k => fun t => at3 ref k f t) :
+    ∀ k f t, applyMapping (at3 (permuted ref π)) (oracleAligner tiny .multiply .greedy (permuted ref π) ref) k f t
+      = at3 ref k f t := oracle_inverts_multiply_greedy_aux tiny ref π hd
+
+/-- multiply metric with the optimal algorithm, rows pairwise distinct -/
 theorem oracle_inverts_multiply_optimal (tiny : ℝ) (ref : Tab3 K F T ℝ) (π : Fin F → Equiv.Perm (Fin K))
     (hd : ∀ f, Injective fun k => fun t => at3 ref k f t) :
     ∀ k f t, applyMapping (at3 (permuted ref π)) (oracleAligner tiny .multiply .optimal (permuted ref π) ref) k f t
